@@ -261,6 +261,9 @@ R03.10 unroll-variadic is read from the interface's merged template-data.`
 	c.Rule("R03.10", 100, "")
 
 	walkTemplate(c, "testify", "body", func(p *TPath) {
+		if usesTypeParamTypes(p.Shape) {
+			return
+		}
 		switch {
 		case p.Err != nil:
 			c.Fail("R03.0", "testify|eval|"+p.Err.err.Error(), p.E.nodePos(p.Err.node), "template path cannot be evaluated: "+p.Err.err.Error()+" ["+p.Env()+"]")
@@ -285,6 +288,7 @@ R03.10 unroll-variadic is read from the interface's merged template-data.`
 		}
 		testifyRules(c, p)
 	})
+	accessorTableGuard(c, "R03.11")
 }
 
 func testifyRules(c *Ctx, p *TPath) {
